@@ -4,6 +4,9 @@ package query
 
 import (
 	"context"
+	"time"
+
+	"github.com/blevesearch/bleve/v2/numeric"
 
 	rt "github.com/blevesearch/bleve/v2/internal/verifrt"
 	"github.com/blevesearch/bleve/v2/mapping"
@@ -270,4 +273,102 @@ func VerifH_C02_QueryTree() {
 	}
 	rt.Assert(got == top.bits, "the searcher returns exactly the documents the query means")
 	rt.Cover(rt.And(got != 0, got != x.all()), "some-but-not-all")
+}
+
+// ---- date range query: bound arithmetic at nanosecond resolution ----
+
+type verifDateDict struct {
+	v      int64 // the indexed value (Unix nanoseconds) of one symbolic document
+	probed bool
+}
+
+func (d *verifDateDict) Contains(term []byte) (bool, error) {
+	ok, s := numeric.ValidPrefixCodedTermBytes(term)
+	if ok && s%4 == 0 {
+		d.probed = rt.Or(d.probed, rt.EqBytes(term, numeric.MustNewPrefixCodedInt64(d.v, uint(s))))
+	}
+	return false, nil
+}
+func (d *verifDateDict) BytesRead() uint64 { return 0 }
+
+type verifDateReader struct {
+	index.IndexReader
+	d *verifDateDict
+}
+
+func (r *verifDateReader) FieldDictContains(field string) (index.FieldDictContains, error) {
+	return r.d, nil
+}
+func (r *verifDateReader) DocCount() (uint64, error) { return 1, nil }
+
+// VerifH_C07_DateRange: DateRangeQuery.Searcher with symbolic start and end instants (Unix
+// nanoseconds, within one aligned window of 2^window_bits), optional ends and symbolic inclusive
+// flags: a document whose date is v nanoseconds is a candidate (one of its indexed terms is probed
+// in the dictionary) if and only if v lies in the requested interval - at nanosecond resolution,
+// across the epoch, whatever the float carrier the bounds travel in.
+func VerifH_C07_DateRange() {
+	bits := uint(rt.Param("window_bits", 3))
+	sN, eN := rt.I64("start"), rt.I64("end")
+	// both bounds in one aligned window, or a window around the epoch (where the sortable encoding
+	// changes in every bit)
+	w := int64(1) << bits
+	rt.Assume(rt.Or(sN>>bits == eN>>bits, rt.And(sN >= -w, sN < 0, eN >= 0, eN < w)))
+	// open ends (thorough tier; the searcher-level harness VerifH_C07_RangeBounds covers them too);
+	// a query without any end is rejected by Validate
+	hasStart, hasEnd := true, true
+	if rt.Param("open_ends", 0) == 1 {
+		switch rt.Choice("ends", 3) {
+		case 1:
+			hasStart = false
+		case 2:
+			hasEnd = false
+		}
+	}
+	var start, end time.Time
+	if hasStart {
+		start = time.Unix(0, sN)
+	}
+	if hasEnd {
+		end = time.Unix(0, eN)
+	}
+	var incS, incE *bool
+	incStart, incEnd := true, false // documented defaults
+	switch rt.Choice("inc_start", 3) {
+	case 1:
+		t := true
+		incS = &t
+	case 2:
+		f := false
+		incS, incStart = &f, false
+	}
+	switch rt.Choice("inc_end", 3) {
+	case 1:
+		t := true
+		incE, incEnd = &t, true
+	case 2:
+		f := false
+		incE = &f
+	}
+	// a range whose effective closed form [lo,hi] still contains both -1ns and the epoch makes the term
+	// enumerator step across the top 7-bit digit carry (known finding F-C07-1, decided separately by
+	// VerifH_C07_EnumerateCarry): such ranges are left out here, all others around the epoch are in
+	lo2 := sN + rt.IteI64(incStart, 0, 1)
+	hi2 := eN - rt.IteI64(incEnd, 0, 1)
+	rt.Assume(rt.Or(sN>>bits == eN>>bits, hi2 < 0, lo2 >= 0))
+	q := NewDateRangeInclusiveQuery(start, end, incS, incE)
+	q.SetField("f")
+	rt.Assume(rt.And(isDatetimeCompatible(q.Start), isDatetimeCompatible(q.End))) // otherwise the query is rejected
+	d := &verifDateDict{v: rt.I64("v")}
+	if !hasStart || !hasEnd {
+		// an open end reaches to the first / last sortable value: keep the document near the given bound
+		rt.Assume(d.v>>bits == rt.IteI64(hasStart, sN, eN)>>bits)
+	} else {
+		rt.Assume(rt.And(d.v >= sN-w, d.v <= eN+w)) // a document near the interval
+	}
+	_, err := q.Searcher(context.Background(), &verifDateReader{d: d}, mapping.NewIndexMapping(), search.SearcherOptions{})
+	rt.Assert(err == nil, "the searcher is built")
+	lo := rt.Or(!hasStart, rt.IteBool(incStart, d.v >= sN, d.v > sN))
+	hi := rt.Or(!hasEnd, rt.IteBool(incEnd, d.v <= eN, d.v < eN))
+	rt.Assert(d.probed == rt.And(lo, hi), "a document is a candidate iff its date lies in the requested interval")
+	rt.Cover(rt.And(hasStart, hasEnd, sN < 0, eN >= 0, lo, hi), "interval-across-the-epoch")
 }
